@@ -174,9 +174,12 @@ def run_case(case):
         target = os.path.join(rd.world, "T")
         later = T0_NS + 3600 * 10**9
 
-        def V(clause, detail, res=None):
-            viol.append({"clause": clause, "detail": "%s | op=%s dargs=%s gflags=%s%s" % (
-                detail, op, case["dargs"], case["gflags"], (" | stderr=" + res.err.decode("utf-8", "replace")[-400:]) if res is not None else "")})
+        def V(clause, detail, res=None, paths=None):
+            v = {"clause": clause, "detail": "%s | op=%s dargs=%s gflags=%s%s" % (
+                detail, op, case["dargs"], case["gflags"], (" | stderr=" + res.err.decode("utf-8", "replace")[-400:]) if res is not None else "")}
+            if paths is not None:
+                v["paths"] = sorted({b2s(ops.relw(rd, ops.temp_owner(p, origs) or p) or p) for p in paths})
+            viol.append(v)
 
         origs = frozenset(os.path.join(rd.wb(), p_) for p_ in inventory(rd.world))
         scripts = []
@@ -219,7 +222,8 @@ def run_case(case):
             if op in ("remove", "link", "softlink") and i1 != i2:
                 diff = sorted(p for p in set(i1) | set(i2) if i1.get(p) != i2.get(p))
                 V("bash-equals-real", "tree after `bash script` differs from tree after the real run at %s: bash %s real %s" % (
-                    [b2s(p) for p in diff][:5], [i1.get(p) for p in diff][:3], [i2.get(p) for p in diff][:3]))
+                    [b2s(p) for p in diff][:5], [i1.get(p) for p in diff][:3], [i2.get(p) for p in diff][:3]),
+                  paths=[os.path.join(rd.wb(), p) for p in diff])
             # (2) operations
             tops = trace_ops(real.trace, op, origs)
             want = sorted(sops)
@@ -234,7 +238,8 @@ def run_case(case):
                 got = sorted((k, a, b_) for (k, a, b_) in tops if k == "reflink" and b"<tmp>" not in b_)
             if want != got:
                 V("script-equals-real-ops", "operations differ: only in script %s ; only in real run %s" % (
-                    [o for o in want if o not in got][:4], [o for o in got if o not in want][:4]))
+                    [o for o in want if o not in got][:4], [o for o in got if o not in want][:4]),
+                  paths=[x for o in (set(want) ^ set(got)) for x in o[1:] if x and x.startswith(rd.wb() + b"/")])
             # (3) summaries
             s1, s2 = ops.summary(dry), ops.summary(real)
             if (s1 is not None or s2 is not None) and s1 != s2:
@@ -259,3 +264,24 @@ def run_case(case):
             "invocations": 5,
             "info": {"op": op, "dargs": case["dargs"], "script_ops": nops},
         }
+
+
+# ----------------------------------------------------------------------------- known findings
+
+def _symlink_across_isolate_roots(case, violation):
+    """Same defect as C02's c02-symlink-and-target-in-different-isolate-roots, seen from the dry-run side:
+    `group -S --isolate` counts a link and its target under two roots as two replicas; `link` then plans
+    `ln <target> <target>` (the retained link resolves to the file that is being replaced), which the real
+    run rolls back - script, operations and summary differ.  Accepted only when such a cross-root link
+    exists and every path named by the violation belongs to the content class of its target."""
+    from . import c02
+    key, bad = c02.cross_root_link_classes(case)
+    if not bad:
+        return False
+    if violation["clause"] == "summary-equal":
+        return True
+    paths = violation.get("paths")
+    return bool(paths) and all(key.get(p) in bad for p in paths)
+
+
+KNOWN_PREDICATES = {"c11-symlink-and-target-in-different-isolate-roots": _symlink_across_isolate_roots}
